@@ -41,6 +41,11 @@ def _run_variant(args):
         m = Model(overlay=overlay)
         mod.run(m, rep, "quick")
     except AnalysisError as e:
+        new = [f for f in rep.findings if f.key() not in base_keys]
+        if new:      # same policy as the cli: established violations count
+            return name, "detected", [
+                f"{f.rule} [{f.construct}] {f.message}"[:240]
+                for f in new[:3]]
         return name, "analysis-error", [str(e)[:200]]
     except Exception as e:       # a checker crash is a fail-closed outcome
         return name, "analysis-error", [f"{type(e).__name__}: {e}"[:200]]
